@@ -3,7 +3,7 @@
     Go type by reflection) and a value; the model encodes, decodes its own
     cell, and encodes the decoded value again. *)
 From Coq Require Import List NArith ZArith String Bool.
-From Tongo Require Import Lib.Bits Lib.Res Lib.Sx Model.TlbCore Model.VmStack.
+From Tongo Require Import Lib.Bits Lib.Res Lib.Sx Model.TlbCore Model.VmStack Model.TlbExt.
 Import ListNotations.
 Local Open Scope string_scope.
 Local Open Scope list_scope.
@@ -184,7 +184,7 @@ Fixpoint cell_eqb_sx (a b : ctree) : bool :=
          end) ra rb
   end.
 
-Definition run_rt (a : sx) : sx :=
+Definition run_rt_base (a : sx) : sx :=
   match a with
   | SL [_; d; v] =>
       match ty_of d, val_of v with
@@ -253,6 +253,81 @@ Definition run_cur (a : sx) : sx :=
   | _ => sx_err "c03.cur"
   end.
 
+(** *** extension layer: descriptors with snake data / length-prefixed bytes *)
+Fixpoint xty_of (s : sx) : option xty :=
+  match s with
+  | SL (SA nm :: args) =>
+      let is x := String.eqb nm x in
+      let tys := (fix go (l : list sx) : option (list xty) :=
+                    match l with
+                    | [] => Some []
+                    | x :: r => match xty_of x, go r with Some t, Some ts => Some (t :: ts) | _, _ => None end
+                    end) in
+      let alts := (fix go (l : list sx) : option (list (nat * N * xty)) :=
+                    match l with
+                    | [] => Some []
+                    | SL [SN len; SN val; x] :: r =>
+                        match small len, xty_of x, go r with
+                        | Some n, Some t, Some ts => Some ((n, val, t) :: ts)
+                        | _, _, _ => None
+                        end
+                    | _ => None
+                    end) in
+      if is "xstruct" then omap XStruct (tys args)
+      else if is "xsum" then omap XSum (alts args)
+      else match args with
+      | [] => if is "xsnake" then Some XSnake else None
+      | [SN n] => if is "xlenbytes" then omap XLenBytes (small n) else None
+      | [x] =>
+          if is "xbase" then omap XBase (ty_of x)
+          else if is "xmaybe" then omap XMaybe (xty_of x)
+          else if is "xeitherref" then omap XEitherRef (xty_of x)
+          else if is "xref" then omap XRef (xty_of x)
+          else if is "xmayberef" then omap XMaybeRef (xty_of x)
+          else None
+      | [x; y] =>
+          if is "xeither" then match xty_of x, xty_of y with Some l, Some r => Some (XEither l r) | _, _ => None end
+          else None
+      | _ => None
+      end
+  | _ => None
+  end.
+
+(** c03.xrt  (name xdescriptor value): as c03.rt, through the extension layer *)
+Definition run_xrt (a : sx) : sx :=
+  match a with
+  | SL [_; d; v] =>
+      match xty_of d, val_of v with
+      | Some t, Some x =>
+          match xenc fuel t x empty_bld with
+          | Ok b =>
+              let c := finish b in
+              match xdec fuel t (open c) with
+              | Ok (x', rest) =>
+                  let again := match xenc fuel t x' empty_bld with
+                               | Ok b' => cell_eqb_sx (finish b') c
+                               | _ => false
+                               end in
+                  SL [cell_sx c; val_sx x'; SB (match sb rest, sr rest with [], [] => true | _, _ => false end); SB again]
+              | Err e => if N.eqb e EFuel then sx_err "fuel" else SL [cell_sx c; SA "decode-err"]
+              | Panic _ => SA "panic"
+              end
+          | Err e => if N.eqb e EFuel then sx_err "fuel" else SA "err"
+          | Panic _ => SA "panic"
+          end
+      | None, _ => sx_err "descriptor"
+      | _, None => sx_err "value"
+      end
+  | _ => sx_err "c03.xrt"
+  end.
+
+(* c03.rt serves both layers: a descriptor in the xty syntax goes through the extension layer *)
+Definition run_rt (a : sx) : sx :=
+  match a with
+  | SL [_; d; _] => match xty_of d with Some _ => run_xrt a | None => run_rt_base a end
+  | _ => sx_err "c03.rt"
+  end.
+
 (** c03.stack  (descriptor-of-VmStackValue (value ...)) ->
       'err | (cell (value' ...)):  tlb.Marshal of a tlb.VmStack and
       tlb.Unmarshal of the produced cell (the list comes back reversed) *)
@@ -289,4 +364,5 @@ Definition run03 (name : string) (a : sx) : sx :=
   else if String.eqb name "c03.dec" then run_dec a
   else if String.eqb name "c03.stack" then run_stack a
   else if String.eqb name "c03.cur" then run_cur a
+  else if String.eqb name "c03.xrt" then run_xrt a
   else sx_err "unknown case kind".
